@@ -4878,6 +4878,10 @@ func (c *BytecodeCompiler) compileMethodCall(receiver ast.ExpressionNode, op *to
 		// it cannot be replaced by the frame of the called method
 		tailCall = false
 	}
+	if tailCall && c.additionalAbortChecks {
+		// tail calls turn recursion into a loop
+		c.emit(location.StartPos.Line, bytecode.CHECK_ABORT)
+	}
 	name := identifierToName(nameNode)
 
 	switch op.Type {
